@@ -1,7 +1,11 @@
 // Package props holds the rule tables and rule code, one file per property.
 package props
 
-import "aurora-verif/checker/core"
+import (
+	"strings"
+
+	"aurora-verif/checker/core"
+)
 
 // Meta is the per-property description copied into MANIFEST.json and the evidence file.
 type Meta struct {
@@ -27,6 +31,14 @@ var NotApplicable = map[string]string{
 func reg(id string, m Meta, f func(r *core.Run)) {
 	if m.DesignRef == "" {
 		m.DesignRef = "DESIGN.md §4 " + id
+	}
+	if rows := errRows[id]; len(rows) > 0 {
+		m.Technique += "; targeted error-discipline rows (no decision-input error is dropped)"
+		var fns []string
+		for _, row := range rows {
+			fns = append(fns, row.fn)
+		}
+		m.Explanation += " (E0) Error discipline: in " + strings.Join(fns, ", ") + " the error result of every call the decision depends on (table in checker/props/errtable.go) is tested, returned or passed on — never assigned to blank or left unread."
 	}
 	Registry[id] = entry{m, f}
 }
